@@ -18,6 +18,9 @@ TRUSTED = [
     'trigger semantics (AFTER INSERT/UPDATE/DELETE ... FOR EACH ROW) as modelled by t_insert/t_update/t_delete in coq/model/Cache.v, with the trigger arithmetic compiled from the DDL in core.py',
     'fault injection raises before the intercepted statement/file operation executes; COMMIT/ROLLBACK and os.remove are not injection points (a failed COMMIT keeps the SQLite transaction open, a failed unlink keeps the file: neither can be repaired by the library)',
 ]
+TRUSTED.append('lock contention is produced in one thread: the lock holder is a second connection (Cache handle or plain sqlite3) of the same '
+               'process; SQLite decides BEGIN IMMEDIATE per connection, so the contended handle (timeout=0) sees SQLITE_BUSY exactly as it would '
+               'from another thread or process')
 ASSUMPTIONS = ['the file clause is proved for the counters only (C08_counters); files-vs-rows agreement is decided by the monitor and by the row/file correspondence of every history',
                'concurrent clause: see C05']
 
@@ -242,6 +245,344 @@ def open_races(ctx, res, stats, nsched):
                                                {'check': 'open_race', 'schedule': schedule}))
 
 
+# ---------------------------------------------------------------------------
+# lock contention: operations that time out on (or wait for) the write lock
+
+
+def _cval(spec):
+    """['str'|'bytes'|'tuple'|'int'|'stream', n, tag] -> (value, read flag).  With disk_min_file_size=8 every kind but 'int'
+    (and very short ones) is kept in a value file; 'stream' is a binary stream stored with read=True (always a file)."""
+    import io
+    kind, n, t = spec
+    if kind == 'str':
+        return (chr(97 + t % 26) * n), False
+    if kind == 'bytes':
+        return bytes([65 + t % 26]) * n, False
+    if kind == 'tuple':
+        return tuple(range(t, t + n)), False
+    if kind == 'stream':
+        return io.BytesIO(bytes([48 + t % 10]) * n), True
+    return n, False
+
+
+class _Holder:
+    """Another connection that owns the write lock of one cache directory: either a second Cache handle inside
+    `with other.transact():` (optionally after a write of its own) or a plain sqlite3 connection after BEGIN IMMEDIATE."""
+
+    def __init__(self, directory, mode):
+        self.mode = mode
+        self.held = False
+        if mode == 'raw':
+            self.con = sqlite3.connect(os.path.join(directory, 'cache.db'), timeout=0, isolation_level=None)
+        else:
+            self.other = diskcache.Cache(directory)
+        self.n = 0
+
+    def acquire(self):
+        if self.held:
+            return
+        if self.mode == 'raw':
+            self.con.execute('BEGIN IMMEDIATE')
+        else:
+            self.cm = self.other.transact()
+            self.cm.__enter__()
+            if self.mode == 'transact+write':
+                self.n += 1
+                self.other.set('held', 'h' * (20 + self.n))         # a file-backed value of the holder itself, committed on release
+        self.held = True
+
+    def release(self):
+        if not self.held:
+            return
+        if self.mode == 'raw':
+            self.con.execute('COMMIT')
+        else:
+            self.cm.__exit__(None, None, None)
+        self.held = False
+
+    def close(self):
+        self.release()
+        if self.mode == 'raw':
+            self.con.close()
+        else:
+            self.other.close()
+
+
+def _val_files(dirs):
+    out = set()
+    for d in dirs:
+        for dp, dn, fn in os.walk(d):
+            out.update(os.path.join(dp, f) for f in fn if f.endswith('.val'))
+    return out
+
+
+def _contention_call(kind, obj, cache, op):
+    """one call of the case; raises Timeout (Cache) or returns the documented failure value (FanoutCache)"""
+    name = op['op']
+    retry = bool(op.get('retry'))
+    if name in ('set', 'add'):
+        v, read = _cval(op['val'])
+        kw = {'read': True} if read else {}
+        return getattr(cache, name)(op['key'], v, retry=retry, **kw)
+    if name == 'setitem':
+        obj[op['key']] = _cval(op['val'])[0]
+        return None
+    if name == 'push':
+        return cache.push(_cval(op['val'])[0], prefix=op.get('prefix'), side=op.get('side', 'back'), retry=retry)
+    if name == 'pull':
+        return cache.pull(prefix=op.get('prefix'), retry=retry)
+    if name == 'incr':
+        return cache.incr(op['key'], retry=retry)
+    if name == 'delete':
+        return cache.delete(op['key'], retry=retry)
+    if name == 'pop':
+        return cache.pop(op['key'], retry=retry)
+    if name == 'touch':
+        return cache.touch(op['key'], expire=None, retry=retry)
+    if name == 'get':
+        return cache.get(op['key'], retry=retry)
+    # Deque / Index methods (the library always retries inside them)
+    if name in ('append', 'appendleft'):
+        return getattr(obj, name)(_cval(op['val'])[0])
+    if name == 'extend':
+        return obj.extend([_cval(v)[0] for v in op['vals']])
+    if name in ('dq_pop', 'dq_popleft'):
+        try:
+            return getattr(obj, name[3:])()
+        except IndexError:
+            return None
+    if name == 'dq_setitem':
+        try:
+            obj[op['index']] = _cval(op['val'])[0]
+        except IndexError:
+            pass
+        return None
+    if name == 'ix_setdefault':
+        return obj.setdefault(op['key'], _cval(op['val'])[0])
+    if name == 'ix_pop':
+        return obj.pop(op['key'], None)
+    if name == 'ix_push':
+        return obj.push(_cval(op['val'])[0])
+    if name == 'ix_update':
+        return obj.update([(k, _cval(v)[0]) for k, v in op['items']])
+    raise ValueError(name)
+
+
+def run_contention_case(case, d):
+    """Runs one lock-contention case in directory d.  Returns (problems, info): problems = [(sig, text, op_index)].
+
+    Every call of case['ops'] runs on a handle with timeout=0 while another connection holds the write lock
+    (of every shard in case['locked'] for FanoutCache).  retry False: the call must give up (Timeout / failure value);
+    retry k >= 2: the lock is released just before the call's k-th BEGIN attempt, so the call waits and then succeeds.
+    The bookkeeping clauses are decided only when the lock has been released and no call is running."""
+    kind, mode = case['kind'], case['holder']
+    minf = case.get('min_file_size', 8)
+    problems, info = [], {'timeouts': 0, 'waited': 0, 'ops': 0}
+    state = {'armed': None, 'n': 0}
+    holders = []
+
+    def before(ev):
+        if state['armed'] is not None and ev.kind == 'sql' and ev.what == 'BEGIN':
+            state['n'] += 1
+            if state['n'] == state['armed']:
+                for h in holders:
+                    h.release()
+                info['waited'] += 1
+
+    tracer = sched.Tracer(before=before)
+    with tracer:
+        if kind == 'fanout':
+            obj = cache = diskcache.FanoutCache(d, shards=case['shards'], timeout=0, disk_min_file_size=minf)
+            dirs = [os.path.join(d, '%03d' % s) for s in range(case['shards'])]
+            lock_dirs = [dirs[s] for s in case['locked']]
+        else:
+            cache = diskcache.Cache(d, timeout=0, disk_min_file_size=minf, eviction_policy=case.get('policy', 'least-recently-stored'))
+            dirs = lock_dirs = [d]
+            obj = cache
+            if kind == 'deque':
+                obj = diskcache.Deque.fromcache(cache, [], maxlen=case.get('maxlen'))
+            elif kind == 'index':
+                obj = diskcache.Index.fromcache(cache)
+        try:
+            for op in case['pre']:
+                _contention_call(kind, obj, cache, dict(op, retry=True))
+            holders.extend(_Holder(ld, mode) for ld in lock_dirs)
+
+            def quiescent_check(i, name, final=False):
+                for dd in dirs:
+                    bad, _ = consistency(dd)
+                    for sig, text in bad[:2]:
+                        problems.append((sig, text, i, name))
+                if final and not problems:
+                    libw = lib_check(cache)
+                    if libw:
+                        problems.append(('check_warns', 'check() reports %s' % libw[:2], i, name))
+
+            for h in holders:
+                h.acquire()
+            listing = _val_files(dirs)
+            blame = []
+            for i, op in enumerate(case['ops']):
+                info['ops'] += 1
+                state['armed'], state['n'] = (op['retry'] if op.get('retry') else None), 0
+                tracer.enable(True)
+                try:
+                    r = _contention_call(kind, obj, cache, op)
+                    if kind == 'fanout' and not op.get('retry') and r in (False, None) and op['op'] in ('set', 'add', 'delete', 'touch', 'incr', 'pop'):
+                        info['timeouts'] += 1
+                except diskcache.Timeout:
+                    info['timeouts'] += 1
+                finally:
+                    tracer.enable(False)
+                    state['armed'] = None
+                now = _val_files(dirs)
+                if now - listing:
+                    blame.append((i, op['op'], sorted(now - listing)))
+                listing = now
+                if not case.get('hold_across'):
+                    for h in holders:
+                        h.release()
+                    quiescent_check(i, op['op'])
+                    if problems:
+                        break
+                for h in holders:
+                    h.acquire()
+            for h in holders:
+                h.release()
+            if not problems:
+                quiescent_check(len(case['ops']) - 1, 'end', final=True)
+                # attribute a leaked file to the call during which it appeared
+                fixed = []
+                for sig, text, i, name in problems:
+                    for bi, bop, names in blame:
+                        if sig == 'unknown_file' and any(n_.endswith(text.split(' ')[2]) for n_ in names):
+                            i, name = bi, bop
+                        elif sig == 'check_warns' and any(n_ in text for n_ in names):
+                            i, name = bi, bop
+                    fixed.append((sig, text, i, name))
+                problems[:] = fixed
+        finally:
+            for h in holders:
+                try:
+                    h.close()
+                except Exception:
+                    pass
+            try:
+                cache.close()
+            except Exception:
+                pass
+    return problems, info
+
+
+def gen_contention_case(rng, n):
+    kind = ['cache', 'fanout', 'deque', 'index', 'cache', 'fanout'][n % 6]
+    # (a Deque owns every key of its cache, so its holder and its give-up-at-once calls add no foreign key)
+    case = {'check': 'contention', 'kind': kind, 'holder': ['transact', 'raw', 'transact+write'][(n // 6) % 3 if kind in ('cache', 'index') else (n // 6) % 2],
+            'hold_across': rng.random() < 0.4, 'min_file_size': 8}
+    t = [0]
+
+    def val(filey=0.85):
+        t[0] += 1
+        if rng.random() < filey:
+            k = rng.choice(['str', 'bytes', 'tuple', 'stream'] if kind in ('cache', 'fanout') else ['str', 'bytes', 'tuple'])
+            return [k, rng.choice([8, 9, 20, 64, 300, 5000]), t[0]]
+        return ['int', rng.randrange(100), t[0]]
+
+    def retry():
+        return rng.choice([2, 2, 3, 5])
+    keys = ['k%d' % i for i in range(6)]
+    if kind in ('cache', 'fanout'):
+        if kind == 'fanout':
+            case['shards'] = rng.choice([2, 3])
+            locked = [s for s in range(case['shards']) if rng.random() < 0.7]
+            case['locked'] = locked or list(range(case['shards']))
+        case['policy'] = rng.choice(['least-recently-stored', 'least-recently-used', 'none'])
+        case['pre'] = [{'op': 'set', 'key': k, 'val': val()} for k in rng.sample(keys, 3)]
+        if kind == 'cache':
+            case['pre'] += [{'op': 'push', 'val': val(), 'prefix': None}]
+        ops = []
+        for _ in range(rng.randrange(4, 10)):
+            name = rng.choice(['set', 'set', 'set', 'add', 'add', 'incr', 'delete', 'pop', 'touch', 'get', 'setitem'] +
+                              (['push', 'push', 'pull'] if kind == 'cache' else []))
+            op = {'op': name, 'retry': rng.choice([False, False, False, retry()])}
+            if name in ('set', 'add', 'setitem'):
+                op.update(key=rng.choice(keys), val=val(0.95))
+            elif name == 'push':
+                op.update(val=val(0.95), prefix=rng.choice([None, 'q']), side=rng.choice(['back', 'front']))
+            elif name == 'pull':
+                op.update(prefix=None)
+            elif name == 'incr':
+                op.update(key='n%d' % rng.randrange(2))
+            else:
+                op.update(key=rng.choice(keys))
+            if name == 'setitem':
+                op['retry'] = retry()       # __setitem__ always retries
+            ops.append(op)
+        case['ops'] = ops
+    elif kind == 'deque':
+        case['maxlen'] = rng.choice([None, None, 3])
+        case['pre'] = [{'op': 'append', 'val': val()} for _ in range(3)]
+        ops = []
+        for _ in range(rng.randrange(4, 9)):
+            name = rng.choice(['append', 'appendleft', 'extend', 'dq_pop', 'dq_popleft', 'dq_setitem', 'push', 'push'])
+            op = {'op': name, 'retry': retry()}
+            if name in ('append', 'appendleft'):
+                op['val'] = val(0.95)
+            elif name == 'extend':
+                op['vals'] = [val(0.95) for _ in range(2)]
+            elif name == 'dq_setitem':
+                op.update(index=rng.randrange(3), val=val(0.95))
+            elif name == 'push':          # the queue primitive of the underlying cache, giving up at once
+                op.update(val=val(0.95), prefix=None, retry=False)
+            ops.append(op)
+        case['ops'] = ops
+    else:
+        case['pre'] = [{'op': 'setitem', 'key': k, 'val': val()} for k in keys[:3]]
+        ops = []
+        for _ in range(rng.randrange(4, 9)):
+            name = rng.choice(['setitem', 'setitem', 'ix_setdefault', 'ix_pop', 'ix_push', 'ix_update', 'set', 'add'])
+            op = {'op': name, 'retry': retry()}
+            if name in ('setitem', 'ix_setdefault'):
+                op.update(key=rng.choice(keys), val=val(0.95))
+            elif name == 'ix_pop':
+                op.update(key=rng.choice(keys))
+            elif name == 'ix_push':
+                op.update(val=val(0.95))
+            elif name == 'ix_update':
+                op['items'] = [[rng.choice(keys), val(0.95)] for _ in range(2)]
+            else:                           # through Index.cache, giving up at once
+                op.update(key=rng.choice(keys), val=val(0.95), retry=False)
+            ops.append(op)
+        case['ops'] = ops
+    return case
+
+
+def lock_contention(ctx, res, stats, ncases):
+    """set / add / push / replacing set of file-backed values (and read=True streams), removals and counters on a handle with
+    timeout=0 while another connection holds the write lock; Deque / Index methods waiting for the lock.  Once the lock is
+    released and nothing runs, the bookkeeping clauses must hold and check() must be silent."""
+    for n in range(ncases):
+        case = gen_contention_case(ctx.rng, n)
+        d = ctx.scratch('c08l')
+        try:
+            problems, info = run_contention_case(case, d)
+        except Exception as e:  # noqa
+            res.violations.append(fw.Violation('contention_error', 'lock-contention case failed with %r' % (e,), case))
+            continue
+        stats['contention_cases'] = stats.get('contention_cases', 0) + 1
+        stats['contention_timeouts'] = stats.get('contention_timeouts', 0) + info['timeouts']
+        stats['contention_waits'] = stats.get('contention_waits', 0) + info['waited']
+        res.count(['contention', n, case['kind'], case['holder'], info['timeouts'], info['waited']], nontrivial=info['timeouts'] + info['waited'] > 0)
+        if n < 2:
+            res.sample({'contention_case': {k: case[k] for k in ('kind', 'holder', 'hold_across')}, 'ops': [o['op'] for o in case['ops']], 'info': info})
+        for sig, text, i, name in problems[:1]:
+            op = case['ops'][i] if 0 <= i < len(case['ops']) else {}
+            how = 'lock_timeout' if not op.get('retry') else 'lock_wait'
+            vsig = ('leak_after_%s:%s' % (how, name)) if sig == 'unknown_file' else ('%s:%s:%s' % (how, sig, name))
+            res.violations.append(fw.Violation(vsig, '%s after call %d (%s on %s, write lock held by %s)' % (text, i, name, case['kind'], case['holder']),
+                                               dict(case, failing_call=i)))
+
+
 def witnesses(res):
     import tempfile, shutil
     d = tempfile.mkdtemp(prefix='c08wit-')
@@ -288,7 +629,11 @@ def run(ctx, big=False):
     res.rule = ('full-API histories (replace, add-on-present, incr, bulk removal, eviction at a reachable size limit, queue operations) with the '
                 'bookkeeping recomputed after every call: count == rows, size == SUM(size) == total file size, every file row resolves to a file '
                 'of the recorded size, no unreferenced value file, Cache.check() silent; one injected failure per fault history (n-th SQL statement / '
-                'n-th file create/write/close); values and tags the binding rejects; row/file model compared after every call.  '
+                'n-th file create/write/close); values and tags the binding rejects; lock contention: set / add / push / replacing set of '
+                'file-backed values and read=True streams, removals, counters (retry=False, timeout=0: the call gives up) and Cache.__setitem__ / '
+                'Deque / Index methods (the call waits; the lock is released before its k-th BEGIN attempt) while a second Cache handle inside '
+                'transact() or a plain sqlite3 connection after BEGIN IMMEDIATE holds the write lock (any subset of FanoutCache shards), decided '
+                'after the lock is released; row/file model compared after every call.  '
                 'non-trivial = at least one value file exists in the observed state / the fault fired.')
     stats = {'states': 0, 'file_rows': 0, 'fault_runs': 0, 'faults_fired': 0, 'unencodable': 0}
     thorough = not ctx.quick or big
@@ -296,11 +641,14 @@ def run(ctx, big=False):
     fault_histories(ctx, res, 30 if not thorough else 300, 40, stats)
     unencodable(ctx, res, stats)
     open_races(ctx, res, stats, 12 if not thorough else 150)
+    lock_contention(ctx, res, stats, 48 if not thorough else 600)
     if not ctx.search_mode:
         correspondence(ctx, res, terms, recs)
     res.extra.update({'states_checked': stats['states'], 'file_backed_rows_seen': stats['file_rows'],
                       'fault_histories': stats['fault_runs'], 'faults_that_fired': stats['faults_fired'],
-                      'open_race_schedules': stats.get('open_race_runs', 0)})
+                      'open_race_schedules': stats.get('open_race_runs', 0),
+                      'lock_contention_cases': stats.get('contention_cases', 0), 'calls_that_gave_up_on_the_lock': stats.get('contention_timeouts', 0),
+                      'calls_that_waited_for_the_lock': stats.get('contention_waits', 0)})
     witnesses(res)
     return res
 
@@ -311,6 +659,14 @@ def search(ctx, broken):
 
 def replay(payload):
     case = payload.get('case', {})
+    if case.get('check') == 'contention':
+        ctx = fw.Ctx('C08', 'quick', 1)
+        try:
+            problems, info = run_contention_case(case, ctx.scratch('c08l'))
+            print('contention:', problems, info)
+            return not problems
+        finally:
+            ctx.cleanup()
     if case.get('check') not in ('history', 'fault'):
         print(payload)
         return True
